@@ -281,6 +281,7 @@ Inductive normalisation :=
 | CanonicalRotation         (* Face2Tri + ReorderHalfedges: reorder_halfedges_canonical, named gap *)
 | HeapTotalOrder            (* pop order fixed by a total order with serial numbers *)
 | NoCombine                 (* thread-local scratch that is never combined *)
+| SequentialPolicy          (* the functor's only call sites pass the literal ExecutionPolicy::Seq: AtomicAdd is a plain add in index order *)
 | Allowed (reason : String.string) (* justified allow-list entry *)
 | Flagged (key : String.string) (* shown schedule dependent by the exploration; key of the violation *)
 | UnstableSort              (* std::sort / manifold::sort where equal keys may exist *)
